@@ -16,6 +16,10 @@ func stateJSchema(s *Scanner, _ byte) *jerr.JApiError {
 	if je != nil {
 		return je
 	}
+	if schemaLength == 0 && s.curIndex < s.dataSize {
+		// Nothing the schema library would take as a schema starts here ("/", "#").
+		return s.japiErrorUnexpectedChar("at the beginning of the schema", "")
+	}
 	if schemaLength > 0 {
 		s.curIndex += bytes.Index(schemaLength - 1)
 	}
